@@ -57,7 +57,7 @@ def replay(ob):
                     if lo == 'elem' and up == 'elem':
                         upv = lov + X.element(np.abs(rng.standard_normal(n)))
                     op = fac(X, lower=lov, upper=upv)(sig)
-                elif info['factory'] == 'proximal_const_func':
+                elif info['factory'] in ('proximal_const_func', 'proximal_linfty', 'proximal_convex_conj_linfty'):
                     op = fac(X)(sig)
                 else:
                     op = fac(X, lam=lam, g=g)(sig)
